@@ -1,5 +1,6 @@
 """C13 - Signature proofs merge as verified set union and round-trip (DESIGN 4, C13)."""
 import json
+import os
 import re
 import vcheck
 
@@ -8,7 +9,10 @@ META = {
     "technique": "Coq proofs over an executable Gallina model of gcrypto/simplecommonmessagesignatureproof.go (key-id guards "
                  "regenerated from the source by the translator), of the BLS combination index and of the sigtree aggregation "
                  "tree; differential correspondence of the real Go code (real ed25519 / blst) against the model evaluated with "
-                 "vm_compute in coqc, plus a Coq monitor of the set-union specification evaluated on the implementation's observations",
+                 "vm_compute in coqc, plus a Coq monitor of the set-union specification evaluated on the implementation's observations; "
+                 "for BLS finalized proofs an executable model of Finalize / ValidateFinalizedProof (Model/BlsFinal.v, reusing the combination "
+                 "index model), theorems over all key-set sizes and partitions, the real Finalize + ValidateFinalizedProof driven from real "
+                 "partitions (harness/c13fin) against the model and an independent round-trip monitor (Monitors/C13BlsFinm.v)",
     "level": "Full for the simple scheme: MergeSparse = verified set union with exact flags and no panic (merge_sparse_spec, "
              "union, monotone, idempotent, order irrelevant), no bit without a valid signature as an invariant over all operation "
              "sequences (AddSignature, Merge, MergeSparse, Clone, Derive), sparse round-trip, ValidateFinalizedProof total for a "
@@ -21,13 +25,22 @@ META = {
              "verified set union (monotone, idempotent, order irrelevant), AddSignature, no panic for any reachable state and input, "
              "clone/derive frame, node ids fit 2 bytes iff n <= 32768 (sparse round trip refuted for 32769 keys, replayed on the real "
              "code: known finding). Partial for the tree: Merge's exact bits/flags and the positive sparse round trip / cover property "
-             "of SparseIndices are decided by the monitor C13Blsm and the correspondence run, not by a theorem.",
+             "of SparseIndices are decided by the monitor C13Blsm and the correspondence run, not by a theorem. "
+             "Full for BLS finalized proofs (Properties/C13BlsFinal.v): for every n <= 65535, every non-empty main signer set and every list "
+             "of rest blocks of any sizes and order with distinct sign contents, pairwise disjoint blocks round-trip through Finalize + "
+             "ValidateFinalizedProof to exactly their signer sets with allSignaturesUnique = true (list and bit-mask form); Finalize is "
+             "independent of the order of the rest proofs, ValidateFinalizedProof of the Rest map order; ValidateFinalizedProof never panics "
+             "on any finalized input when every sign content has a hash. REFUTED for double signers: whenever two blocks share a signer "
+             "Finalize panics (proved for all n/partitions; witness replayed on the real code: known finding "
+             "bls-finalize-double-signer-panic). Guards stated: main block non-empty. Not proved: Tree.FinalizedSig = aggregate of SigBits "
+             "(checked by the harness against the blst sum on every case).",
     "note": "Trusted: Coq kernel, translator (cross-checked by the correspondence run), ideal-signature convention (DESIGN 3), "
             "bits-and-blooms/bitset, math/big.Binomial, blst, Go harnesses and generators. Clone independence is an aliasing "
             "property decided by the correspondence run and the monitor only. Two defects fixed in the repo worktree (simple "
             "MergeSparse key-id length, BLS finalized key-id range) and a third for the BLS tree (nil point dereference on undecodable "
             "signature bytes, repo 5d01a2e); reverting any makes the check exit 1 with a replay. BLS ideal aggregate signatures: "
-            "aggregate unforgeability, no rogue keys, distinct keys.",
+            "aggregate unforgeability, no rogue keys, distinct keys. Fourth repo fix 11bfd7d: Finalize skipped nothing for a rest proof "
+            "without signatures and produced an unverifiable finalized proof (k = 0 key id); reverting it makes the check exit 1.",
     "design_ref": "DESIGN.md 4 (C13)",
 }
 
@@ -943,6 +956,592 @@ def run_tree(c, proved):
     return cov
 
 
+# ----------------------------------------------------------------------------- BLS finalized proofs
+FIN_KEYS = {1: "bls-finalize-double-signer-panic", 2: "bls-finalize-panic", 3: "bls-validate-finalized-panic",
+            4: "bls-finalize-roundtrip-rejected", 5: "bls-finalize-roundtrip-sets", 6: "bls-finalize-signature",
+            7: "bls-double-signer-not-reported", 8: "bls-validate-finalized-unsound"}
+FIN_WHAT = {1: "Finalize panics on a validator that signed two of the blocks (double signer never reported)",
+            2: "Finalize panics on disjoint well-formed blocks",
+            3: "ValidateFinalizedProof panics although every block hash was supplied",
+            4: "the finalized proof of disjoint blocks does not validate (nil result or allSignaturesUnique = false)",
+            5: "the finalized proof validates to other signer sets than the blocks it was built from",
+            6: "a finalized signature is not the aggregate of the block's signers / wrong number of entries / wrong count header",
+            7: "a double signer is not reported (allSignaturesUnique = true)",
+            8: "ValidateFinalizedProof reports signer bits that no valid signature of the finalized proof backs"}
+
+
+def py_unrank(n, k, idx):
+    """the ascending k-subset of range(n) with lexicographic rank idx (inverse of py_rank)."""
+    from math import comb
+    out, cur = [], 0
+    for pos in range(k, 0, -1):
+        while cur < n and comb(n - cur - 1, pos - 1) <= idx:
+            idx -= comb(n - cur - 1, pos - 1)
+            cur += 1
+        out.append(cur)
+        cur += 1
+    return out
+
+
+def min_be(x):
+    return list(x.to_bytes((x.bit_length() + 7) // 8, "big")) if x else []
+
+
+class FinGen:
+    """cases for Finalize -> ValidateFinalizedProof (op fin) and for ValidateFinalizedProof on arbitrary input (op val)."""
+
+    def __init__(self, rng):
+        self.rng = rng
+        self.kinds = {}
+        self.overlap_kinds = {}
+        self.vkinds = {}
+        self.vdetail = {}
+
+    # ---- helpers
+    def pick_n(self):
+        rng = self.rng
+        r = rng.below(100)
+        if r < 40:
+            return 1 + rng.below(6)
+        if r < 80:
+            return 4 + rng.below(9)
+        return 13 + rng.below(12)
+
+    def shuffle(self, xs):
+        for i in range(len(xs) - 1, 0, -1):
+            j = self.rng.below(i + 1)
+            xs[i], xs[j] = xs[j], xs[i]
+        return xs
+
+    def contents(self, k):
+        """k distinct short sign contents over a small alphabet (common prefixes and first-byte ties happen)."""
+        rng = self.rng
+        out = []
+        while len(out) < k:
+            r = rng.below(20)
+            if r == 0:
+                b = []
+            elif r < 3:
+                b = [0]
+            else:
+                b = [rng.choice([0, 1, 2, 3, 7, 128, 255]) if rng.chance(2, 3) else rng.below(256) for _ in range(1 + rng.below(3))]
+            if b not in out:
+                out.append(b)
+        if k >= 2 and [0] not in out and rng.chance(1, 3):
+            out[1 + rng.below(k - 1)] = [0]          # the nil vote
+        return out
+
+    def hashes(self, msgs):
+        rng = self.rng
+        distinct = []
+        for m in msgs:
+            if m not in distinct:
+                distinct.append(m)
+        p = self.shuffle(list(range(len(distinct))))
+        hs = [[m, [200 + p[i]] + ([rng.below(256)] if rng.chance(1, 3) else [])] for i, m in enumerate(distinct)]
+        return self.shuffle(hs)
+
+    def partition(self, n, nrest):
+        """disjoint main / rest signer sets over a random subset of the keys; main usually the biggest."""
+        rng = self.rng
+        keys = self.shuffle(list(range(n)))
+        t = n if rng.chance(1, 3) else 1 + rng.below(n)
+        keys = keys[:t]
+        if nrest == 0:
+            return keys, []
+        m = max(1, t - rng.below(t // 2 + 1)) if rng.chance(4, 5) else 1 + rng.below(t)
+        main, others = keys[:m], keys[m:]
+        rest = [[] for _ in range(nrest)]
+        for k in others:
+            rest[rng.below(nrest)].append(k)
+        return main, rest
+
+    def distinct_sizes(self, n, nb):
+        """nb distinct rest sizes >= 1 and a main size >= 1 with sum <= n (n >= 4)."""
+        rng = self.rng
+        while 1 + nb * (nb + 1) // 2 > n:
+            nb -= 1
+        for _ in range(20):
+            cand = self.shuffle(list(range(1, n)))[:nb]
+            if sum(cand) <= n - 1:
+                return cand
+        return list(range(1, nb + 1))
+
+    # ---- op fin
+    def fin_case(self):
+        rng = self.rng
+        n = self.pick_n()
+        r = rng.below(100)
+        kind = ("overlap" if r < 12 else "rest-equals-main" if r < 15 else "dup-rest-content" if r < 17 else "missing-hash" if r < 19
+                else "none-sign" if r < 23 else "all-sign-main" if r < 29 else "empty-rest-block" if r < 37
+                else "equal-sizes" if r < 56 else "unequal-sizes" if r < 76 else "disjoint")
+        main, rest = [], []
+        same_content = None           # (i, j): rest block i carries the content of block j (-1 = main)
+        if kind in ("disjoint", "missing-hash"):
+            main, rest = self.partition(n, rng.below(5))
+        elif kind == "equal-sizes":
+            n = max(n, 3)
+            s = 1 + rng.below((n - 1) // 2)
+            e = 3 if 3 * s <= n - 1 and rng.chance(1, 3) else 2
+            keys = self.shuffle(list(range(n)))
+            rest = [keys[i * s:(i + 1) * s] for i in range(e)]
+            left = keys[e * s:]
+            m = 1 + rng.below(len(left))
+            main, left = left[:m], left[m:]
+            extras = [[] for _ in range(rng.below(4 - e + 1))]
+            for k in left:
+                if extras and rng.chance(2, 3):
+                    extras[rng.below(len(extras))].append(k)
+            rest = self.shuffle(rest + extras)
+        elif kind in ("unequal-sizes", "dup-rest-content"):
+            n = max(n, 4)
+            sizes = self.distinct_sizes(n, 2 if kind == "dup-rest-content" else 2 + rng.below(3))
+            keys = self.shuffle(list(range(n)))
+            pos = 0
+            for s in sizes:
+                rest.append(keys[pos:pos + s])
+                pos += s
+            left = keys[pos:]
+            main = left[:1 + rng.below(len(left))]
+            mode = rng.below(3)
+            if mode == 0:
+                rest.sort(key=len)                       # ascending sizes: the opposite of the finalizing order
+            elif mode == 1:
+                rest.sort(key=len, reverse=True)
+            else:
+                self.shuffle(rest)
+            if kind == "dup-rest-content":
+                same_content = (1, 0)
+        elif kind == "all-sign-main":
+            main = list(range(n)) if rng.chance(2, 3) else self.shuffle(list(range(n)))[:max(1, n - 1)]
+            rest = [[] for _ in range(rng.below(4))] if rng.chance(1, 2) else []
+        elif kind == "none-sign":
+            _, rest = self.partition(n, rng.below(4))
+        elif kind == "empty-rest-block":
+            main, rest = self.partition(n, 1 + rng.below(4))
+            rest[rng.below(len(rest))] = []
+        elif kind == "rest-equals-main":
+            main, rest = self.partition(n, 1 + rng.below(3))
+            same_content = (0, -1)
+            if rng.chance(1, 3):
+                rest[0] = list(main)
+            elif not rest[0]:
+                free = [i for i in range(n) if i not in main and not any(i in b for b in rest)]
+                if free:
+                    rest[0] = [free[0]]
+        else:  # overlap
+            n = max(n, 2)
+            main, rest = self.partition(n, 1 + rng.below(4))
+            if not any(rest):
+                free = [i for i in range(n) if i not in main]
+                rest[0] = [free[0]] if free else [main.pop()]
+            v = rng.below(3)
+            full = [i for i, b in enumerate(rest) if b]
+            if v == 2 and len(rest) >= 2:
+                a = rng.choice(full)
+                b = rng.choice([i for i in range(len(rest)) if i != a])
+                rest[b].append(rng.choice(rest[a]))
+                ok = "rest/rest"
+            elif v == 1:
+                main.append(rng.choice(rest[rng.choice(full)]))
+                ok = "main/rest"
+            else:
+                b = rng.below(len(rest)) if rng.chance(1, 3) else rng.choice(full)
+                rest[b].append(rng.choice(main))
+                ok = "main/rest"
+            self.overlap_kinds[ok] = self.overlap_kinds.get(ok, 0) + 1
+        msgs = self.contents(1 + len(rest))
+        if same_content:
+            i, j = same_content
+            msgs[1 + i] = msgs[1 + j]
+        hs = self.hashes(msgs)
+        if kind == "missing-hash":
+            hs.pop(rng.below(len(hs)))
+        self.kinds[kind] = self.kinds.get(kind, 0) + 1
+        return {"op": "fin", "n": n, "main": {"msg": msgs[0], "bits": sorted(set(main))},
+                "rest": [{"msg": msgs[1 + i], "bits": sorted(set(b))} for i, b in enumerate(rest)],
+                "hashes": hs, "_kind": kind}
+
+    # ---- op val
+    def keyid(self, k, idx, lead=False):
+        return [(k >> 8) & 255, k & 255] + ([0] if lead else []) + min_be(idx)
+
+    def bad_sig(self, msg, S, n, what):
+        rng = self.rng
+        S = sorted(S)
+        if what == "wrongset":
+            v = rng.below(3)
+            out = [i for i in range(n + 1) if i not in S]
+            if v == 0 and len(S) > 1:
+                T = S[:-1] if rng.chance(1, 2) else S[1:]
+            elif v == 1 and out:
+                T = sorted(S + [rng.choice(out)])
+            else:
+                T = sorted(set(S[1:] + [rng.choice(out)])) if out else S[1:]
+            return {"k": 0, "m": msg, "l": T}
+        if what == "wrongmsg":
+            return {"k": 0, "m": msg + [1], "l": S}
+        if what == "junk":
+            return {"k": 1, "v": rng.below(1000)}
+        return {"k": 2, "v": rng.below(1000)}
+
+    def bad_id(self, n, k, idx, what):
+        """a corrupted key id for a k-subset of n keys."""
+        from math import comb
+        rng = self.rng
+        if what == "idx=C":
+            return self.keyid(k, comb(n, k))
+        if what == "idx-huge":
+            return self.keyid(k, comb(n, k) + 1 + rng.below(1 << rng.choice([3, 16, 70])))
+        if what == "k=0":
+            return self.keyid(0, rng.choice([0, 0, 1, idx]))
+        if what == "k>n":
+            return self.keyid(n + 1 + rng.below(3), rng.choice([0, idx]))
+        if what == "k-huge":
+            return self.keyid(rng.choice([255, 256, 65535]), rng.choice([0, idx]))
+        if what == "id0":
+            return []
+        if what == "id1":
+            return [rng.choice([0, k & 255])]
+        raise ValueError(what)
+
+    def val_case(self):
+        from math import comb
+        rng = self.rng
+        n = self.pick_n()
+        r = rng.below(100)
+        kind = ("valid-chain" if r < 30 else "main-id" if r < 50 else "main-sig" if r < 60 else "main-count" if r < 64
+                else "rest-id" if r < 76 else "rest-sig" if r < 86 else "rest-count" if r < 91 else "unsorted-chain" if r < 96
+                else "rest-is-main" if r < 98 else "missing-hash")
+        nrest = rng.below(5)
+        if kind.startswith("rest-") or kind == "unsorted-chain":
+            nrest = max(nrest, 2 if kind == "unsorted-chain" else 1)
+        msgs = self.contents(1 + nrest)
+        detail = ""
+        # main: a random index in range, the signer set is its unranking
+        k0 = max(1, n - rng.below(n // 2 + 1)) if rng.chance(1, 2) else 1 + rng.below(n)
+        idx0 = rng.below(comb(n, k0))
+        S0 = py_unrank(n, k0, idx0)
+        main_id = self.keyid(k0, idx0)
+        main_sig = {"k": 0, "m": msgs[0], "l": S0}
+        if kind == "main-id":
+            detail = rng.choice(["idx=C", "idx-huge", "k=0", "k>n", "k-huge", "id0", "id1", "leading-zero", "other-index"])
+            if detail == "leading-zero":
+                main_id = self.keyid(k0, idx0, lead=True)          # SetBytes ignores it: still valid
+            elif detail == "other-index":
+                main_id = self.keyid(k0, (idx0 + 1 + rng.below(max(1, comb(n, k0) - 1))) % comb(n, k0))
+            else:
+                main_id = self.bad_id(n, k0, idx0, detail)
+        elif kind == "main-sig":
+            detail = rng.choice(["wrongset", "wrongset", "wrongmsg", "junk", "undecodable"])
+            main_sig = self.bad_sig(msgs[0], S0, n, detail)
+        mainsigs = [{"id": main_id, "sig": main_sig}]
+        if kind == "main-count":
+            detail = rng.choice(["0", "2"])
+            mainsigs = [] if detail == "0" else mainsigs + [{"id": main_id, "sig": main_sig}]
+        # rest signer sets over the keys not yet used, in generation order
+        used = set(S0)
+        sets = []
+        nosig = rng.below(nrest) if kind == "rest-count" and rng.chance(1, 2) else -1
+        for j in range(nrest):
+            avail = [i for i in range(n) if i not in used]
+            if not avail or j == nosig:
+                sets.append([])
+                continue
+            kj = 1 + rng.below(len(avail)) if rng.chance(1, 3) else 1 + rng.below(min(len(avail), 3))
+            Sj = sorted(self.shuffle(list(avail))[:kj])
+            used |= set(Sj)
+            sets.append(Sj)
+        target = rng.choice([j for j in range(nrest) if sets[j]] or [0]) if nrest else -1
+        if kind == "rest-is-main" and nrest:
+            msgs[1 + target] = msgs[0]       # a Rest entry filed under the main sign content (its signature is over that content)
+        order = list(range(nrest))
+        if kind != "unsorted-chain":
+            order.sort(key=lambda j: (-len(sets[j]), msgs[1 + j]))   # k descending, then sign content ascending
+        elif order == sorted(order, key=lambda j: (-len(sets[j]), msgs[1 + j])):
+            order.reverse()
+        taken = set(S0)
+        entries = {}
+        for j in order:
+            avail = [i for i in range(n) if i not in taken]
+            Sj = sets[j]
+            if not Sj:
+                # no key left / the entry without signatures
+                entries[j] = [] if j == nosig or kind == "valid-chain" or rng.chance(1, 2) else [{"id": self.keyid(1, 0), "sig": {"k": 1, "v": j}}]
+                continue
+            red = [avail.index(i) for i in Sj]
+            idx = py_rank(len(avail), red)
+            eid = self.keyid(len(Sj), idx)
+            sig = {"k": 0, "m": msgs[1 + j], "l": Sj}
+            if j == target and kind == "rest-id":
+                detail = rng.choice(["idx=C", "idx-huge", "k=0", "k>n", "k-huge", "id0", "id1", "leading-zero", "unreduced"])
+                if detail == "leading-zero":
+                    eid = self.keyid(len(Sj), idx, lead=True)
+                elif detail == "unreduced":
+                    eid = self.keyid(len(Sj), py_rank(n, Sj))        # index in the ORIGINAL key space
+                else:
+                    eid = self.bad_id(len(avail), len(Sj), idx, detail)
+            if j == target and kind == "rest-sig":
+                detail = rng.choice(["wrongset", "wrongset", "wrongmsg", "junk", "undecodable"])
+                sig = self.bad_sig(msgs[1 + j], Sj, n, detail)
+            entries[j] = [{"id": eid, "sig": sig}]
+            if j == target and kind == "rest-count" and nosig < 0:
+                detail = "2"
+                entries[j] = entries[j] * 2
+            taken |= set(Sj)
+        if kind == "rest-count" and nosig >= 0:
+            detail = "0"
+        vrest = [{"msg": msgs[1 + j], "sigs": entries[j]} for j in range(nrest)]
+        self.shuffle(vrest)
+        hs = self.hashes(msgs)
+        if kind == "missing-hash":
+            hs.pop(rng.below(len(hs)))
+        self.vkinds[kind] = self.vkinds.get(kind, 0) + 1
+        if detail:
+            self.vdetail[kind + ":" + detail] = self.vdetail.get(kind + ":" + detail, 0) + 1
+        return {"op": "val", "n": n, "mainmsg": msgs[0], "mainsigs": mainsigs, "vrest": vrest, "hashes": hs, "_kind": kind}
+
+
+def coq_fsig(s):
+    if s["k"] == 0:
+        return "(FAgg %s [%s])" % (cl(s["m"]), ";".join("%d%%Z" % x for x in s["l"]))
+    return "(%s %d)" % ("FJunk" if s["k"] == 1 else "FBad", s["v"])
+
+
+def coq_fents(es):
+    return "[" + ";".join("(%s,%s)" % (cl(e["id"]), coq_fsig(e["sig"])) for e in es) + "]"
+
+
+def coq_fin_case(cs, fo, vo):
+    hs = "[" + ";".join("(%s,%s)" % (cl(m), cl(h)) for m, h in cs["hashes"]) + "]"
+    if cs["op"] == "fin":
+        blk = lambda b: "mk_fproof %s %d" % (cl(b["msg"]), sum(1 << i for i in b["bits"]))
+        return "TFin %d%%Z (%s) [%s] %s %s %s" % (cs["n"], blk(cs["main"]), ";".join(blk(b) for b in cs["rest"]), hs, cl(fo), cl(vo))
+    rest = "[" + ";".join("(%s,%s)" % (cl(r["msg"]), coq_fents(r["sigs"])) for r in cs.get("vrest") or []) + "]"
+    return "TVal (mk_ffin %d%%Z %s %s %s) %s %s" % (cs["n"], cl(cs["mainmsg"]), coq_fents(cs["mainsigs"]), rest, hs, cl(vo))
+
+
+FIN_HEAD = """From Coq Require Import List NArith ZArith String Bool.
+From GV Require Import Base.Ints Base.GoBytes Model.SimpleProofBase Model.CombIndex Model.BlsFinal Monitors.C13BlsFinm.
+Import ListNotations. Local Open Scope N_scope.
+Inductive tcase : Type :=
+| TFin (n : Z) (main : fproof) (rest : list fproof) (hs : list (list N * list N)) (fo vo : list N)
+| TVal (f : ffin) (hs : list (list N * list N)) (vo : list N).
+Definition cases : list tcase := [
+%s
+].
+Definition cv (s : fsig) : vsig := match s with FAgg m l => VAgg m l | _ => VOther end.
+Definition cvs (l : list fsparse) : list (list N * vsig) := map (fun e => (fst e, cv (snd e))) l.
+Definition blk (p : fproof) : list N * N := (fp_msg p, fp_bits p).
+Definition vmon (f : ffin) hs (vo : list N) : option N :=
+  val_mon (ff_n f) (ff_main_msg f) (cvs (ff_main_sigs f)) (map (fun e => (fst e, cvs (snd e))) (ff_rest f)) hs vo.
+(* one model run per case: ((model obs = implementation obs, (monitor on implementation, monitor on model)), model obs) *)
+Definition eval1 (c : tcase) : (bool * (option N * option N)) * (list N * list N) :=
+  match c with
+  | TFin n main rest hs fo vo =>
+      let m := run_fin n main rest hs in
+      ((bytes_eqb (fst m) fo && bytes_eqb (snd m) vo,
+        (fin_mon n (blk main) (map blk rest) hs fo vo, fin_mon n (blk main) (map blk rest) hs (fst m) (snd m))), m)
+  | TVal f hs vo =>
+      let m := run_val f hs in
+      ((bytes_eqb m vo, (vmon f hs vo, vmon f hs m)), ([], m))
+  end.
+Fixpoint number {A} (l : list A) (i : N) : list (N * A) := match l with [] => [] | x :: t => (i, x) :: number t (i + 1) end.
+Definition raw := Eval vm_compute in map (fun c => (fst c, eval1 (snd c))) (number cases 0).
+Definition results := Eval vm_compute in map (fun r => (fst r, fst (snd r))) raw.
+Definition details := Eval vm_compute in
+  flat_map (fun r => let '(i, ((ok, (a, b)), m)) := r in
+              match ok, a, b with true, None, None => [] | _, _, _ => [(i, fst m, snd m)] end) raw.
+Print results.
+Print details.
+"""
+
+
+def count_ventries(vo):
+    i, k = 2, 0
+    while i < len(vo):
+        i += vo[i] + 2
+        k += 1
+    return k
+
+
+def fin_wf_disjoint(cs):
+    """python copy of the monitor's case split, used for the coverage numbers only (never for a verdict)."""
+    blocks = [cs["main"]] + cs["rest"]
+    msgs = [tuple(b["msg"]) for b in blocks]
+    hm = {tuple(m): tuple(h) for m, h in cs["hashes"]}
+    wf = (len(set(msgs)) == len(msgs) and all(m in hm for m in msgs) and len(set(hm[m] for m in msgs if m in hm)) == len(msgs)
+          and len(cs["main"]["bits"]) > 0)
+    allbits = [i for b in blocks for i in b["bits"]]
+    return wf, len(set(allbits)) == len(allbits)
+
+
+def run_fin(c, proved):
+    """BLS finalized proofs: real Finalize / ValidateFinalizedProof vs Model/BlsFinal.v (in coqc) and the monitors C13BlsFinm."""
+    ok, mlog = c.coq_make(["Model/BlsFinal.vo", "Monitors/C13BlsFinm.vo"])
+    if not ok:
+        c.fail_obligation("build Model/BlsFinal.vo Monitors/C13BlsFinm.vo", mlog[-1500:])
+        return {}
+    binary, blog = c.go_build("c13fin")
+    if binary is None:
+        c.fail_obligation("harness-build-fin", blog[-1500:])
+        return {}
+    g = FinGen(c.rng)
+    rp = json.load(open(c.replay)) if c.replay else {}
+    if "fin_case" in rp:
+        cases = [rp["fin_case"]]
+    else:
+        mult = 1 if c.tier == "quick" else 20
+        cases = [g.fin_case() for _ in range(150 * mult)] + [g.val_case() for _ in range(120 * mult)]
+    lines = [json.dumps(strip(cs)) for cs in cases]
+    rc, out, err = c.run_bin(binary, stdin="\n".join(lines) + "\n")
+    outl = out.split("\n")
+    obs, pos, bad = [], 0, rc != 0
+    for cs in cases:
+        if bad:
+            break
+        if cs["op"] == "fin":
+            if pos + 1 >= len(outl) or not outl[pos].startswith("F") or not outl[pos + 1].startswith("V"):
+                bad = True
+                break
+            obs.append(([int(x) for x in outl[pos].split()[1:]], [int(x) for x in outl[pos + 1].split()[1:]]))
+            pos += 2
+        else:
+            if pos >= len(outl) or not outl[pos].startswith("V"):
+                bad = True
+                break
+            obs.append(([], [int(x) for x in outl[pos].split()[1:]]))
+            pos += 1
+    if bad or len(obs) != len(cases):
+        c.fail_obligation("harness-run-fin", "harness rc=%d answered %d of %d cases; output line %d: %r; stderr: %s"
+                          % (rc, len(obs), len(cases), pos, outl[pos][:200] if pos < len(outl) else None, err[-800:]),
+                          {"fin_case": strip(cases[len(obs)]) if len(obs) < len(cases) else None})
+        return {}
+
+    results, details = {}, {}
+    shard = 300
+    res_re = re.compile(r"\((\d+)(?:%N)?,\s*\((true|false),\s*\((None|Some\s+(\d+)(?:%N)?),\s*(None|Some\s+(\d+)(?:%N)?)\)\)\)")
+    det_re = re.compile(r"\((\d+)(?:%N)?,\s*\[([^\]]*)\],\s*\[([^\]]*)\]\)")
+    for si in range(0, len(cases), shard):
+        body = FIN_HEAD % ";\n".join(coq_fin_case(cs, fo, vo) for cs, (fo, vo) in zip(cases[si:si + shard], obs[si:si + shard]))
+        ok, cout = c.coq_eval("c13_fin_cases_%d" % (si // shard), body)
+        if not ok:
+            c.fail_obligation("cases-eval-fin", cout[-2000:])
+            return {}
+        m1 = re.search(r"results\s*=\s*(.*?)\n\s*:\s*list", cout, flags=re.S)
+        m2 = re.search(r"details\s*=\s*(.*?)\n\s*:\s*list", cout, flags=re.S)
+        got = res_re.findall(m1.group(1)) if m1 else []
+        if not m1 or not m2 or len(got) != len(cases[si:si + shard]):
+            c.fail_obligation("cases-eval-fin-parse", "parsed %d of %d results\n%s" % (len(got), len(cases[si:si + shard]), cout[-1500:]))
+            return {}
+        for i, okb, a, an, b, bn in got:
+            results[si + int(i)] = (okb == "true", int(an) if a != "None" else None, int(bn) if b != "None" else None)
+        for i, f, v in det_re.findall(m2.group(1)):
+            details[si + int(i)] = {"F": [int(x) for x in re.findall(r"\d+", f)], "V": [int(x) for x in re.findall(r"\d+", v)]}
+
+    def replay_obj(ci):
+        cs = cases[ci]
+        how = "echo '%s' | bin/h_c13fin   (or ./check C13 --replay <this file>)" % json.dumps(strip(cs), separators=(",", ":"))
+        o = {"fin_case": strip(cs), "kind": cs.get("_kind"), "observed": {"F": obs[ci][0], "V": obs[ci][1]} if cs["op"] == "fin" else {"V": obs[ci][1]},
+             "model": details.get(ci, "same as observed"), "coq_case": coq_fin_case(cs, obs[ci][0], obs[ci][1]), "how": how}
+        return o
+
+    corr_bad = [ci for ci in sorted(results) if not results[ci][0]]
+    mon_bad = [(ci, results[ci][1]) for ci in sorted(results) if results[ci][1] is not None]
+    model_mon_bad = [(ci, results[ci][2]) for ci in sorted(results) if results[ci][2] is not None and results[ci][2] != 1]
+    seen = set()
+    for ci, code in mon_bad:
+        key = FIN_KEYS.get(code, "bls-finalize-code-%d" % code)
+        if key in seen:
+            continue
+        seen.add(key)
+        cs = cases[ci]
+        if cs["op"] == "fin":
+            desc = "n=%d, main %s over %s, rest %s" % (cs["n"], cs["main"]["bits"], cs["main"]["msg"],
+                                                        [(b["bits"], b["msg"]) for b in cs["rest"]])
+        else:
+            desc = "ValidateFinalizedProof input of kind %s, n=%d" % (cs.get("_kind"), cs["n"])
+        c.report(key, "real gblsminsig finalized proof: %s (%s): observed F %s V %s"
+                 % (FIN_WHAT.get(code, "monitor code %d" % code), desc, obs[ci][0] if cs["op"] == "fin" else "-", obs[ci][1]), replay_obj(ci))
+    impl_fail = [k for k in seen if k not in c.known]
+    if corr_bad and not impl_fail:
+        ci = corr_bad[0]
+        c.fail_obligation("correspondence Model/BlsFinal.v vs gblsminsig/signatureproofscheme.go",
+                          "model and implementation differ on %d cases; first: case %d (%s %s): model %s, implementation F %s V %s"
+                          % (len(corr_bad), ci, cases[ci]["op"], cases[ci].get("_kind"), details.get(ci), obs[ci][0], obs[ci][1]),
+                          replay_obj(ci))
+    if model_mon_bad and not impl_fail:
+        ci, code = model_mon_bad[0]
+        c.fail_obligation("model_satisfies_monitor (BLS finalize, sampled)",
+                          "the model's own observations are rejected by the monitor with code %d: case %d (%s %s), model %s"
+                          % (code, ci, cases[ci]["op"], cases[ci].get("_kind"), details.get(ci)), replay_obj(ci))
+    if not proved and not impl_fail:
+        b = getattr(c, "broken", {"file": "?", "log": ""})
+        c.fail_obligation("Properties/C13BlsFinal.v (%s)" % b["file"], b["log"], {"searched_cases": len(cases)})
+
+    # ------------------------------------------------------------------ coverage
+    nh, rh, vh, vkh, vpk = {}, {}, {}, {}, {}
+    diff_sizes = eq_sizes = overlaps = panics_f = panics_v = roundtrips = 0
+    nontrivial = set()
+    sample_ci = None
+    for ci, cs in enumerate(cases):
+        nh[cs["n"]] = nh.get(cs["n"], 0) + 1
+        fo, vo = obs[ci]
+        if vo == [999]:
+            panics_v += 1
+            pk = "%s %s" % (cs["op"], cs.get("_kind"))
+            vpk[pk] = vpk.get(pk, 0) + 1
+        if cs["op"] != "fin":
+            tag = "panic" if vo == [999] else "nil" if vo[:1] == [0] else "map-%d-hashes" % count_ventries(vo)
+            vh[tag] = vh.get(tag, 0) + 1
+            kk = "%s -> %s" % (cs.get("_kind"), "panic" if vo == [999] else "nil" if vo[:1] == [0] else "map")
+            vkh[kk] = vkh.get(kk, 0) + 1
+            continue
+        rh[len(cs["rest"])] = rh.get(len(cs["rest"]), 0) + 1
+        sizes = [len(b["bits"]) for b in cs["rest"] if b["bits"]]
+        diff_sizes += len(set(sizes)) >= 2
+        eq_sizes += len(sizes) != len(set(sizes))
+        wf, disj = fin_wf_disjoint(cs)
+        overlaps += not disj
+        panics_f += fo == [999]
+        if wf and disj and vo[:2] == [1, 1] and results[ci][1] is None:
+            roundtrips += 1
+            if len(sizes) >= 2:
+                nontrivial.add(json.dumps(strip(cs), sort_keys=True))
+                if sample_ci is None:
+                    sample_ci = ci
+    if cases:
+        si = sample_ci if sample_ci is not None else 0
+        c.samples.append({"fin_case": strip(cases[si]), "observed": {"F": obs[si][0], "V": obs[si][1]}})
+    return {
+        "fin_cases": sum(1 for cs in cases if cs["op"] == "fin"),
+        "fin_val_cases": sum(1 for cs in cases if cs["op"] == "val"),
+        "fin_evaluations": sum(2 if cs["op"] == "fin" else 1 for cs in cases),
+        "fin_traces_validated_against_impl": len(obs),
+        "fin_distinct_nontrivial": len(nontrivial),
+        "fin_rule": "non-trivial = a distinct well-formed disjoint fin case with >= 2 non-empty rest blocks whose finalized proof validated "
+                    "back to exactly the blocks' signer sets (judged by Monitors/C13BlsFinm.fin_mon on the implementation's output)",
+        "fin_roundtrips": roundtrips,
+        "fin_kind_histogram": g.kinds,
+        "fin_overlap_kinds": g.overlap_kinds,
+        "fin_key_set_sizes": {str(k): v for k, v in sorted(nh.items())},
+        "fin_rest_blocks_histogram": {str(k): v for k, v in sorted(rh.items())},
+        "fin_cases_rest_sizes_differ": diff_sizes,
+        "fin_cases_rest_sizes_equal": eq_sizes,
+        "fin_overlap_cases": overlaps,
+        "fin_finalize_panics_observed": panics_f,
+        "fin_validate_panics_observed": panics_v,
+        "fin_validate_panics_by_kind": vpk,
+        "fin_val_kinds": g.vkinds,
+        "fin_val_corruptions": g.vdetail,
+        "fin_val_outcomes": vh,
+        "fin_val_outcome_by_kind": {k: vkh[k] for k in sorted(vkh)},
+        "fin_correspondence_disagreements": len(corr_bad),
+        "fin_monitor_failures_on_impl": len(mon_bad),
+        "fin_monitor_codes_on_impl": {FIN_KEYS.get(k, str(k)): sum(1 for _, x in mon_bad if x == k) for k in sorted(set(x for _, x in mon_bad))},
+    }
+
+
 def main(argv):
     c = vcheck.Check("C13", argv)
     c.trusted += [
@@ -956,12 +1555,17 @@ def main(argv):
         "Go harness /verif/harness/c13tree (real gblsminsig.SignatureProof; genuine aggregates = blst sums of the leaves' signatures; "
         "junk = valid point over another message; undecodable = wrong-length / off-curve bytes) and the closed-form node ranges it "
         "uses to verify AsSparse output independently",
+        "Go harness /verif/harness/c13fin (real gblsminsig Finalize / ValidateFinalizedProof over real blst keys and signatures; "
+        "genuine aggregate = blst sum of the signers' signatures, computed independently of the tree code; junk = a valid point over "
+        "another message; undecodable = wrong-length / off-curve bytes)",
     ]
     c.assumes += [
         "ideal signatures (DESIGN 3): a signature value verifies for exactly one (key, message); ed25519 realises Good k m 0",
         "public key bytes are injective in the key identity; the trusted key list handed to ValidateFinalizedProof is non-empty",
         "BLS tree: ideal aggregate signatures - Verify(aggregate key of leaf set S, sig) iff sig is the aggregate of the genuine "
         "signatures of exactly S over the proof's message (aggregate unforgeability, no rogue-key attack, distinct keys)",
+        "finalized proofs: ideal aggregate signatures - the aggregate key of a signer set S verifies exactly the aggregate of the "
+        "genuine signatures of S over that sign content",
     ]
     c.grep_gate()
 
@@ -990,11 +1594,16 @@ def main(argv):
     if tok:
         allobs, corr_bad, mon_bad, model_mon_bad = run_simple(c, binary, cases)
 
-    bls_cov = run_bls(c) if not c.replay or "case" not in json.load(open(c.replay)) else {}
+    rpl = json.load(open(c.replay)) if c.replay else {}
+    bls_cov = run_bls(c) if "case" not in rpl and "fin_case" not in rpl else {}
     tree_cov = {}
-    if not c.replay or "case" not in json.load(open(c.replay)):
+    if "case" not in rpl and "fin_case" not in rpl:
         proved_tree = c.prove("C13Bls")
         tree_cov = run_tree(c, proved_tree)
+    fin_cov = {}
+    if "case" not in rpl and "tree_case" not in rpl:
+        proved_fin = c.prove("C13BlsFinal") if os.path.exists(os.path.join(vcheck.COQ, "Properties", "C13BlsFinal.v")) else True
+        fin_cov = run_fin(c, proved_fin)
 
     # ------------------------------------------------------------------ verdict
     seen_keys = set()
@@ -1038,7 +1647,7 @@ def main(argv):
         merges = [ob for o, ob in zip(cs["ops"], obs) if o["op"] in ("merge", "msparse", "mfrom") and len(ob) == 4]
         if any(m[1] == 1 for m in merges) and any(m[0] == 0 or m[1] == 0 for m in merges):
             nontrivial.add(json.dumps(strip(cs), sort_keys=True))
-    c.samples = [{"case": strip(cs), "observations": ob} for cs, ob in list(zip(cases, allobs))[:2]]
+    c.samples = [{"case": strip(cs), "observations": ob} for cs, ob in list(zip(cases, allobs))[:2]] + c.samples
     c.coverage.update({
         "evaluations": sum(len(o) for o in allobs),
         "cases": len(cases),
@@ -1056,4 +1665,5 @@ def main(argv):
     })
     c.coverage.update(bls_cov)
     c.coverage.update(tree_cov)
+    c.coverage.update(fin_cov)
     c.finish()
